@@ -1448,6 +1448,9 @@ class SystemSuite(Suite):
         for i in range(n):
             mode = modes[i % len(modes)]
             sc = gen_scenario(rng, mode)
+            if prop in ("C03", "C04", "C02") and mode in ("plain", "busy") and i % 3 == 2:
+                from suites import sysgen
+                sc = sysgen.cancel_chain(rng)        # structured family: failing root + flagged chains across batches
             out.append({"op": "system.trace", "sc": sc, "mode": mode, "seed": rng.randrange(1 << 30),
                         "breakStale": (i % 2 == 1) if mode == "faults" else False})
         return out
@@ -1470,7 +1473,9 @@ class SystemSuite(Suite):
         h = result.get("hist")
         if not h or h == "skip" or case["sc"].get("local") or any(g.get("dryRun") for g in case["sc"]["groups"]):
             return {"op": "system.trace", "scn": {"n": 0, "blockers": [], "flags": [], "rc": [], "maxNodes": 1}, "events": []}
-        return {"op": "system.trace", "scn": h["scn"], "events": h["events"]}
+        # fault-free modes: replay through stepP (the extra guards collectedAll / roundDone of Model/SystemPlain.lean)
+        plain = case.get("mode") in ("plain", "busy") and not any(e["op"] in ("scancel", "markCanceled") or (e["op"] == "spawnSub" and e.get("isCancel")) for e in h["events"])
+        return {"op": "system.trace", "scn": h["scn"], "events": h["events"], "plain": plain}
 
     def agree(self, model, result):
         return not self.diff(model, result)
